@@ -66,9 +66,9 @@ pub fn fuzz_one(iface: &IfaceDesc, data: &[u8]) -> Option<String> {
             let bad = match vx {
                 V::Ok(c, d) => c == 0 || vxy != V::Ok(c, d),
                 V::Err(_) => input[k - 1] == b'\n' && matches!(vxy, V::Ok(..)),
-                V::Incomplete => input[k - 1] == b'\n' && !input[..k].iter().any(|c| matches!(c, b'"' | b'\'' | b'#')),
+                V::Incomplete => crate::props::c12::ends_in_plain_terminator(&input[..k]),
             };
-            if bad && k < input.len() || matches!(vx, V::Ok(0, _)) {
+            if bad && (k < input.len() || matches!(vx, V::Incomplete)) || matches!(vx, V::Ok(0, _)) {
                 return Some(format!("C12 parse(\"{}\") = {:?} but parse(\"{}\") = {:?}", esc(&input[..k]), vx, esc(input), vxy));
             }
             None
